@@ -195,7 +195,9 @@ class DocEngine:
     def _gen_rich_para(self, rng, n):
         """a text:p / text:h mixing text with text:s, tab, line-break, spans,
         links, notes, frames, bookmarks ... in seeded adjacency"""
-        words = ["alpha", "beta", "gamma", "delta", "x", "Hello", "world"]
+        # character data as other producers write it: runs of blanks, tabs and line
+        # feeds inside text collapse to one space for a consumer
+        words = ["alpha", "beta", "gamma", "delta", "x", "Hello", "world", "\nsecond line", "two  blanks", "\ttabbed", " lead", "wrapped\n      text"]
 
         def inline(depth):
             k = rng.weighted([("text", 6), ("s", 3), ("s2", 2), ("tab", 3), ("lb", 3), ("span", 3 if depth < 2 else 0), ("a", 2 if depth < 2 else 0),
@@ -627,6 +629,56 @@ class DocEngine:
             gl = [t for t in xmlref.significant_text(flat) if t[0] != xmlref.q("office:binary-data")]
             if sorted(gl) != sorted(wl):
                 return Violation("C11", "leaf-text-changed", "save_set", feats, None, "character data of leaf elements differs between flat xml and plain zip")
+            # element structure / attribute values: the flat document holds exactly the
+            # children of the four part roots (draw:image subtrees of content.xml apart:
+            # they are replaced by embedded copies, by design)
+            IMG = xmlref.q("draw:image")
+
+            def bag(root, skip_images):
+                out = {}
+
+                def walk(e):
+                    for c in e:
+                        if not isinstance(c.tag, str):
+                            continue
+                        if skip_images and c.tag == IMG:
+                            continue
+                        k = (c.tag, tuple(sorted(c.attrib.items())))
+                        out[k] = out.get(k, 0) + 1
+                        walk(c)
+
+                walk(root)
+                return out
+
+            want_bag = {}
+            for n in ("meta.xml", "settings.xml", "styles.xml", "content.xml"):
+                if n in ref_roots:
+                    for k, c in bag(ref_roots[n], n == "content.xml").items():
+                        want_bag[k] = want_bag.get(k, 0) + c
+            # images of styles.xml stay as they are; those of content.xml are skipped on both sides
+            got_bag = bag(flat, False)
+            for k in [k for k in got_bag if k[0] in (IMG, xmlref.q("office:binary-data"))]:
+                pass
+            # remove from the flat bag the embedded images (draw:image with only a mime-type + binary-data)
+            emb = [k for k in got_bag if k[0] == xmlref.q("office:binary-data")]
+            n_emb = sum(got_bag[k] for k in emb)
+            for k in emb:
+                del got_bag[k]
+            if n_emb:
+                left = n_emb
+                for k in sorted([k for k in got_bag if k[0] == IMG and set(a for a, _ in k[1]) <= {xmlref.q("draw:mime-type")}], key=repr):
+                    take = min(left, got_bag[k])
+                    got_bag[k] -= take
+                    left -= take
+                    if not got_bag[k]:
+                        del got_bag[k]
+            # content images not embeddable (no part) stay as draw:image: tolerate images on the flat side
+            extra = {k: c for k, c in got_bag.items() if want_bag.get(k, 0) != c and k[0] != IMG}
+            missing = {k: c for k, c in want_bag.items() if got_bag.get(k, 0) != c}
+            if extra or missing:
+                k = sorted(list(extra) + list(missing), key=repr)[0]
+                return Violation("C11", "structure-changed", "save_set", feats, None,
+                                 f"flat xml does not hold exactly the elements of the parts: e.g. {k[0].rsplit('}', 1)[1]} {dict(k[1])!r}: parts {want_bag.get(k, 0)} flat {got_bag.get(k, 0)}"[:400])
             return None
         for n, rroot in ref_roots.items():
             if n not in parts:
